@@ -109,6 +109,8 @@ def k7scen (t : Tokens) : String :=
   | "rename-dir-while-child-closing" => "renamed=1 uac=0"
   | "clunk-races-inflight-read" => "clunked=1 closed_early=0 closed_after=1 uac=0"
   | "cut-with-request-in-backend" => "returned_early=0 closed_early=0 returned=1 leaks= dbl= uac="
+  | "panic-in-unlinkat-keeps-serving" => "efault=1 child=1 again=1"
+  | "moved-fid-and-fresh-fid-share-the-path-lock" => "formed=1 overlap=0"
   | _ => "?"
 
 end P9.Driver
